@@ -100,7 +100,7 @@ Qed.
 
 Theorem TInv_resize w h t : TInv t -> 1 <= w -> 1 <= h -> TInv (resize w h t).
 Proof.
-  intros [Hm Ha Hw Hh] W H. unfold resize.
+  intros [Hm Ha Hw Hh] W H. unfold resize. cbv zeta. apply TInv_log_ev, TInv_log_ev.
   destruct (set_size_ok w h (set_evs [] (tmain t)) (proj1 (Inv_set_evs _ _) Hm) W H) as (I1 & W1 & H1).
   destruct (set_size_ok w h (set_evs [] (talt t)) (proj1 (Inv_set_evs _ _) Ha) W H) as (I2 & W2 & H2).
   constructor; cbn [tmain talt]; [apply Inv_set_evs, I1|apply Inv_set_evs, I2| |]; ss; congruence.
